@@ -581,7 +581,7 @@ def job_corpus(p: Dict[str, Any]) -> Dict[str, Any]:
         feeds = c11._feeds(tp, raw)
     except Exception:
         return {"status": "skip"}
-    s0, base = G.ort_run(raw, feeds)
+    s0, base = G.ort_run(raw, feeds, limit=3.0)
     if s0 != "ok":
         return {"status": "raw_unrunnable"}
     steps = G.optimize_stepwise(raw)
@@ -596,7 +596,7 @@ def job_corpus(p: Dict[str, Any]) -> Dict[str, Any]:
         prev = d
         out["changed_passes"] += 1
         out["digests"].append(d[:12])
-        s1, res = G.ort_run(m_k, feeds)
+        s1, res = G.ort_run(m_k, feeds, limit=10.0)
         if s1 != "ok":
             out["diff"] = f"after pass {name}: model {s1}: {str(res)[:150]}"
             out["pass"] = name
